@@ -95,7 +95,7 @@ type Timer struct {
 //go:norace
 func (t *Timer) arm(d Duration) {
 	due := simrt.Now() + int64(d)
-	t.tm = simrt.AddTimer(due, func() {
+	t.tm = simrt.AddOneShot(due, func() {
 		if t.f != nil {
 			f := t.f
 			simrt.Spawn("time.AfterFunc", f)
@@ -160,7 +160,12 @@ func (t *Ticker) arm(due int64) {
 	t.tm = simrt.AddTimer(due, func() {
 		simrt.TimerSend(t.c, Epoch.Add(Duration(simrt.Now())))
 		simrt.Probe("ticker.fire")
-		t.arm(due + t.period)
+		// like the runtime: ticks missed by more than a period are skipped
+		next := due + t.period
+		if now := simrt.Now(); next <= now {
+			next = due + t.period*(1+(now-due)/t.period)
+		}
+		t.arm(next)
 	})
 }
 
